@@ -1,13 +1,23 @@
 import CelmaVerif.Lemmas.KeysSub
 import CelmaVerif.Lemmas.SubGroupsExamples
+import CelmaVerif.Lemmas.SubGroupsLookup
+import CelmaVerif.Lemmas.SubGroupsHistory
 /-
   C05 for a handler with SUB-GROUP ARGUMENTS: the handler keeps its arguments in two containers
   (`mArguments`, `mSubGroupArgs`); the property speaks about the keys of the handler as one set.
   Model: `Model/KeysSub.lean` (`findSub` = head of `Handler::processArg`, `addArgumentChecked` =
-  `ArgumentContainer::addArgument( obj, key, also_check)`).
+  `ArgumentContainer::addArgument( obj, key, also_check)`), `Model/ProgArgs/SubGroups.lean` (`processArgT`).
+
+  Chain: `C05_processArg_one_key_space` ties the EVALUATION function `processArgT` (what the driver runs for
+  every key element) to `lookupSpec` on `unionTable`; `C05_subgroup_one_key_space` /
+  `C05_subgroup_spec_is_findArg` say that this is the single-container `findArg` on the table of all keys;
+  `C05_subgroup_built_disjoint` gives `Disjoint (unionTable …)` for every handler built through the API, so
+  that `C05_exact_wins`, `C05_prefix`, `C05_order_independent` (Props/C05.lean, stated for one `Disjoint`
+  table) apply — instantiated in `C05_subgroup_built_exact_wins`.  `C05_subgroup_cmdline`: the key-word
+  lookup `cmdLookupT` is `cmdLookup` on the joined table.
 -/
 namespace CelmaVerif.Props.C05s
-open CelmaVerif CelmaVerif.Keys
+open CelmaVerif CelmaVerif.Keys CelmaVerif.ProgArgs
 
 /-- **One handler, one key space.**  Looking a command-line key up in the two containers the way
     `Handler::processArg` does (`lookupBoth`: which sub-group argument `inl` or plain argument `inr`
@@ -74,6 +84,90 @@ theorem C05_subgroup_definition_refused {α β : Type} (own : List (Key × α)) 
     · rintro (⟨e, he, hc⟩ | h)
       · exact absurd (List.any_eq_true.mpr ⟨e, he, (eq_or_mismatch_iff e.1 k).mpr hc⟩) ho
       · exact h
+
+/-! ### the evaluation function, definition histories, key words -/
+
+/-- **`Handler::processArg` takes the branch that the one-table lookup over all keys of the handler selects.**
+    For every handler tree, state, lookup key and cursor — `lookupSpec` on `unionTable` (the first entry of
+    either container that equals the key; else, abbreviations allowed, the unique entry whose long key starts
+    with it; two such entries ⇒ `std::runtime_error`) answers
+    * a sub-group argument `d` ⇒ `processArgT` runs the sub-group branch (`subGroupBranch`: identification,
+      the copy of the cursor, the sub handler's loop) for an index `j` with `cfg.subs[j] = d`;
+    * a plain argument `a` ⇒ the plain branch (`plainBranch`: value by value mode, `handleIdentifiedArg`) for
+      an index `i` with `cfg.main.args[i] = a`;
+    * nothing ⇒ the answer `unknown`, nothing changed but `mpLastArg`;
+    * an exception ⇒ that exception.
+    A `processArgT` that used the pinned head (`findSubHead`: sub-group container first, abbreviations
+    included) or passed its two tables in the wrong order violates this (`out` / `output`, see the example). -/
+theorem C05_processArg_one_key_space (cfg : TCfg) (t : TState) (key : Key) (ai : It) :
+    match lookupSpec cfg.main.abbr (unionTable cfg.subTable cfg.main.table) key with
+    | .ok (some (.inl d)) => ∃ j, cfg.subs[j]? = some d ∧ processArgT cfg t key ai = subGroupBranch cfg t j d ai
+    | .ok (some (.inr a)) => ∃ i, cfg.main.args[i]? = some a ∧ processArgT cfg t key ai = plainBranch cfg t i a ai
+    | .ok none => processArgT cfg t key ai = .ok ({ t with main := { t.main with lastArg := none } }, ai, .unknown)
+    | .throw e => processArgT cfg t key ai = .throw e
+    | .oob w => processArgT cfg t key ai = .oob w :=
+  processArgT_lookup cfg t key ai
+
+/-- **Every handler built through the API has ONE table without clashing keys.**  After any sequence of
+    `addArgument( spec, dest, desc)` (`false`) and `addArgument( spec, Handler& sub, desc)` (`true`) calls on
+    one handler that were all accepted (`groupDefineSeqT` on a single member: `addArgumentChecked` on the
+    respective container, the other container asked first), the table of all keys of the handler — sub-group
+    entries and plain entries — is `Disjoint`.  This is the hypothesis of `C05_exact_wins`, `C05_prefix`
+    (none needed) and `C05_order_independent`. -/
+theorem C05_subgroup_built_disjoint (defs : List (Nat × Bool × List Char))
+    (h : groupDefineSeqT [([], [])] defs 0 = none) :
+    ∃ plainT subT, groupDefineTablesT [([], [])] defs = some [(plainT, subT)] ∧
+      Disjoint (unionTable subT plainT) :=
+  handler_history_union_disjoint defs h
+
+/-- **… so in every such handler an exact key wins, in whichever container its entry is stored**: the lookup of
+    `processArg` over both containers returns the entry (sub-group argument `inl`, plain argument `inr`) that
+    carries the looked-up character / word, whatever else is defined in either container, abbreviations on or
+    off (`C05_exact_wins` on the union table, through `C05_subgroup_one_key_space`). -/
+theorem C05_subgroup_built_exact_wins (defs : List (Nat × Bool × List Char))
+    (h : groupDefineSeqT [([], [])] defs 0 = none) :
+    ∃ plainT subT, groupDefineTablesT [([], [])] defs = some [(plainT, subT)] ∧
+      ∀ (abbr : Bool) (e : Key × (Unit ⊕ Unit)), e ∈ unionTable subT plainT → ∀ k : Key, k.Single → e.1.Clash k →
+        lookupBoth abbr subT plainT k = .ok (some e.2) := by
+  obtain ⟨plainT, subT, ht, hd⟩ := handler_history_union_disjoint defs h
+  refine ⟨plainT, subT, ht, ?_⟩
+  intro abbr e he k hk hc
+  rw [lookupBoth_eq_union, ← findArg_spec]
+  exact findArg_exact abbr _ hd e he k hk hc
+
+/-- **Key words.**  The entry a key word (`-c`, `--name`) selects in a handler with both containers
+    (`cmdLookupT`: `classifyWord`, `cmdKey`, `findSub`, then `mArguments.findArg`) is the entry the
+    single-container command-line lookup `cmdLookup` selects in the joined table "sub-group arguments, then
+    plain arguments": `C05_cmdline_exact`, `C05_cmdline_single` apply to it (with `Disjoint` of the joined
+    table from `C05_subgroup_built_disjoint`). -/
+theorem C05_subgroup_cmdline {α : Type} (abbr : Bool) (plainT subT : List (Key × α)) (w : List Char) :
+    payload (cmdLookupT abbr plainT subT w) = payload (cmdLookup abbr (subT ++ plainT) w) :=
+  cmdLookupT_eq abbr plainT subT w
+
+-- `processArgT` on `sgCfg` (plain `--out`, sub-group `-s,--output`, abbreviations on) with the key `out`: the
+-- plain branch, through the theorem (the pinned head took the sub-group argument: `C05_head_subgroup_shadows`)
+example (t : TState) (ai : It) :
+    ∃ i a, (sgCfg true).main.args[i]? = some a ∧ a.key = ⟨none, "out".toList⟩ ∧
+      processArgT (sgCfg true) t ⟨none, "out".toList⟩ ai = plainBranch (sgCfg true) t i a ai := by
+  have h := C05_processArg_one_key_space (sgCfg true) t ⟨none, "out".toList⟩ ai
+  have hl : lookupSpec (sgCfg true).main.abbr (unionTable (sgCfg true).subTable (sgCfg true).main.table)
+      ⟨none, "out".toList⟩ = .ok (some (.inr { key := ⟨none, "out".toList⟩, kind := .str, vmode := .required, card := .max 1 })) := by
+    rfl
+  rw [hl] at h
+  obtain ⟨i, hi, hp⟩ := h
+  exact ⟨i, _, hi, rfl, hp⟩
+-- `--outp`: the sub-group branch
+example (t : TState) (ai : It) :
+    ∃ j, (sgCfg true).subs[j]? = some sgDef ∧
+      processArgT (sgCfg true) t ⟨none, "outp".toList⟩ ai = subGroupBranch (sgCfg true) t j sgDef ai := by
+  have h := C05_processArg_one_key_space (sgCfg true) t ⟨none, "outp".toList⟩ ai
+  have hl : lookupSpec (sgCfg true).main.abbr (unionTable (sgCfg true).subTable (sgCfg true).main.table)
+      ⟨none, "outp".toList⟩ = .ok (some (.inl sgDef)) := by rfl
+  rw [hl] at h
+  exact h
+-- a built handler: sub-group `o,output`, plain `out` — accepted, and `out` / `o` / `output` select their entries
+example : groupDefineSeqT [([], [])]
+    [(0, true, ['o', ',', 'o', 'u', 't', 'p', 'u', 't']), (0, false, ['o', 'u', 't'])] 0 = none := by decide
 
 /-! ### the pinned lookup (witness) and non-vacuity -/
 
